@@ -31,6 +31,8 @@ func runC16(c *core.Ctx) {
 	c.RuleDoc("R16.11", "no file system handed out derives from a one-time route resolution (= R07.4)")
 	c.RuleDoc("R16.12", "a paging ReadDir moves its cursor by exactly the number of entries of the page it returns")
 	c.RuleDoc("R16.13", "a directory entry's Type() answers type bits only (FileMode.Type() or a delegate's Type())")
+	c.RuleDoc("R16.15", "in package os only the Lstat method asks os.Lstat")
+	c.RuleDoc("R16.16", "no File helper but SeekFile moves the handle position (= R08.7)")
 	c.RuleDoc("R16.14", "the cache's directory handle lists the source in every call and cuts its pages from that listing (= R10.4)")
 	c.RuleDoc("R16.9", "the cursor of a paging ReadDir moves only for a page that is returned")
 	c.RuleDoc("R16.8", "the mount table matches names against mount points on path-element boundaries (listed siblings are Stat'ed in the file system that listed them)")
@@ -73,6 +75,10 @@ func runC16(c *core.Ctx) {
 		}
 		r16Sorted(c, p)
 		r16EntryTypeIsTypeBits(c, p)
+		// R16.16 (= R08.7): no File helper but SeekFile moves the handle's position (ReadDirFile that rewinds for n <= 0
+		// hands out the children of earlier pages again)
+		c.WithAlias(map[string]string{"R08.7": "R16.16"}, func() { r08NoSeekEmulation(c, p, helperFuncs(p)) })
+		r16ListingFollowsLinks(c, p)
 		// R16.8: the mount table resolves a name on element boundaries: a sibling whose name merely starts with a mount
 		// point's name ("lib64" next to the mount point "lib") is listed by the root but would be Stat'ed inside the mount
 		boundaryTests(c, p, "R16.8", "mount")
@@ -101,6 +107,8 @@ func runC16(c *core.Ctx) {
 	c.Floor("R16.12", 2)
 	c.Floor("R16.13", 1)
 	c.Floor("R16.14", 3)
+	c.Floor("R16.15", 1)
+	c.Floor("R16.16", 1)
 	c.Floor("R16.10", 1)
 	c.Floor("R16.11", 8)
 	c.Floor("R16.1", 2)
@@ -1099,4 +1107,34 @@ func windowViaHelper(s *ssa.Slice, canon ssax.Canon) (missing []string, ok bool)
 	}
 	sort.Strings(missing)
 	return missing, true
+}
+
+// r16ListingFollowsLinks (R16.15, who-may-call): in package os only the Lstat method of the FS calls os.Lstat. Every
+// other by-name operation follows symbolic links like the os function it wraps: a listing that first asks Lstat whether
+// the name "is a directory" refuses a symbolic link to a directory with ErrNotDir, while Stat says it is one and a handle
+// lists it.
+func r16ListingFollowsLinks(c *core.Ctx, p *load.Program) {
+	if p.Target == load.Wasm {
+		return
+	}
+	n := 0
+	for _, fn := range pkgFuncs(p, "os") {
+		ord := ordinals{}
+		ssax.Instrs(fn, func(ins ssa.Instruction) {
+			cl, ok := ins.(*ssa.Call)
+			if !ok || !ssax.CalleeIs(cl, "os", "Lstat") {
+				return
+			}
+			n++
+			root := fn
+			for root.Parent() != nil {
+				root = root.Parent()
+			}
+			c.Check(root.Name() == "Lstat", "R16.15", fname(fn)+"|"+ord.next("os.Lstat"), p.Pos(cl.Pos()), "os.Lstat is called by the Lstat method only",
+				fmt.Sprintf("%s asks os.Lstat about a name: what it decides from the answer differs from Stat for a symbolic link — a by-name listing (or any other operation) of a link to a directory is refused as 'not a directory' while Stat and an opened handle treat it as one", fname(fn)))
+		})
+	}
+	if n == 0 {
+		c.Hard("anchor: os.Lstat call in package os")
+	}
 }
